@@ -10,8 +10,9 @@ ASSUME = ["exact successor values from the reference solver",
           "a reported list that is a non-empty strict sub-list of the exact optimal list, equals the documented rounding rule applied to "
           "the reported numbers, with all tied successors reported within tolerance, matches known finding KF-C04-1 and is not a VIOLATION "
           "while that finding is listed in known_findings.txt"]
-KF = {"KF-C04-1": "tie between exactly equal reachability values lost because round(x, 6) separates non-converged iterates "
-                  "(e.g. inputs/example_17_08.py state 0: alfa_1 and alfa_2 both worth 4/5, only alfa_1 reported)"}
+KF = {"KF-C04-1": "tie between exactly equal reachability values lost because round(x, 6) separates their two floating-point evaluations: "
+                  "non-converged iterates (inputs/example_17_08.py state 0: alfa_1 and alfa_2 both worth 4/5, only alfa_1 reported) or "
+                  "converged values on a rounding boundary (0.75*0.85*0.875 against 0.85*0.75*0.875)"}
 
 
 def _vacuity(tot):
